@@ -313,6 +313,55 @@ def rule_decode_modes(ck: Check, repo: Repo, rid: str = "R5") -> None:
 
 
 
+def rule_format_strings(ck: Check, repo: Repo, rid: str = "R6") -> None:
+    """`S.format(...)` raises KeyError / IndexError / ValueError when S contains braces the call does not name.  A
+    format string must therefore be a constant (or the translation of a constant): text taken from files, options or
+    exception messages that flows into the format STRING (rather than into its arguments) crashes on a `{`."""
+    r = ck.rule(rid, "str.format is applied to constant format strings only (run-time text goes into the arguments)")
+    from ..rules import resolve_deep
+    n = 0
+
+    def constant_format(e: ast.AST, fn) -> bool:
+        if isinstance(e, ast.Constant) and isinstance(e.value, str):
+            return True
+        if isinstance(e, ast.Call) and ast.unparse(e.func) in ("_", "gettext", "ngettext", "N_") and e.args \
+                and all(constant_format(a, fn) or isinstance(a, ast.Name) for a in e.args[:2]) and constant_format(e.args[0], fn):
+            return True
+        if isinstance(e, ast.BinOp) and isinstance(e.op, ast.Add):
+            return constant_format(e.left, fn) and constant_format(e.right, fn)
+        if isinstance(e, ast.JoinedStr):
+            return all(isinstance(v, ast.Constant) for v in e.values)
+        if isinstance(e, ast.Name) and fn is not None:
+            # every binding of the local must be a constant format (an augmented assignment counts)
+            vals = []
+            for st in ast.walk(fn):
+                if isinstance(st, ast.Assign) and any(isinstance(t, ast.Name) and t.id == e.id for t in st.targets):
+                    vals.append(st.value)
+                elif isinstance(st, ast.AugAssign) and isinstance(st.target, ast.Name) and st.target.id == e.id:
+                    vals.append(st.value)
+                elif isinstance(st, ast.AnnAssign) and isinstance(st.target, ast.Name) and st.target.id == e.id and st.value is not None:
+                    vals.append(st.value)
+            params = {a.arg for a in fn.args.args + fn.args.kwonlyargs}
+            return bool(vals) and e.id not in params and all(constant_format(v, None if isinstance(v, ast.Name) else fn) for v in vals)
+        return False
+
+    for q, fn in sorted(repo.functions.items()):
+        for c in ast.walk(fn):
+            if isinstance(c, ast.Call) and isinstance(c.func, ast.Attribute) and c.func.attr in ("format", "format_map") \
+                    and repo.enclosing_function(c) is fn:
+                recv = c.func.value
+                n += 1
+                ok = constant_format(recv, fn)
+                r.instance(f"{q}:{ast.unparse(recv)[:40]}@{c.lineno}", {"function": q, "format_string": ast.unparse(recv)[:70], "constant": ok}, q)
+                if not ok:
+                    r.violation(q, f"format string is not a constant: {ast.unparse(recv)[:60]}",
+                                f"`{ast.unparse(c)[:90]}`: when the run-time part contains `{{` or `}}` (a holder such as"
+                                f" 'ACME {{Research}} Lab', a path, an exception message) .format() raises KeyError / IndexError /"
+                                f" ValueError - inside an error handler this ends the whole run with a traceback", repo.loc(c))
+    r.floor(20, ".format call sites", got=n)
+
+
+
 def run(ck: Check, repo: Repo) -> None:
     ck.explanation = (
         "Exception-escape analysis: for every function the set of (exception class, origin) pairs that leave it is"
@@ -337,3 +386,4 @@ def run(ck: Check, repo: Repo) -> None:
     rule_isolation(ck, repo)
     rule_source(ck, repo)
     rule_decode_modes(ck, repo)
+    rule_format_strings(ck, repo)
